@@ -1787,6 +1787,24 @@ func (z *zfn) phiGuardFacts(at ssa.Instruction) []lin {
 	return out
 }
 
+// staticallyDeadEdge: the edge from pred to b is the side of a comparison of two nil constants (what is left of
+// `if b == nil` once a helper has been inlined with a nil argument) that cannot be taken.
+func staticallyDeadEdge(pred, b *ssa.BasicBlock) bool {
+	iff, ok := pred.Instrs[len(pred.Instrs)-1].(*ssa.If)
+	if !ok || pred.Succs[0] == pred.Succs[1] {
+		return false
+	}
+	bo, ok := iff.Cond.(*ssa.BinOp)
+	if !ok || (bo.Op != token.EQL && bo.Op != token.NEQ) || !isNilConst(bo.X) || !isNilConst(bo.Y) {
+		return false
+	}
+	taken := 0 // nil == nil: the true side
+	if bo.Op == token.NEQ {
+		taken = 1
+	}
+	return pred.Succs[1-taken] == b && pred.Succs[taken] != b
+}
+
 // edgeExcluded2 is edgeExcluded for the phi that is itself tested (edgeExcluded looks at sibling phis).
 func (z *zfn) edgeExcluded2(q *ssa.Phi, i int, at ssa.Instruction) bool {
 	pb := q.Block()
@@ -1914,7 +1932,7 @@ func (z *zfn) provePhi(at ssa.Instruction, g lin, depth int, extra []lin) bool {
 		all := true
 		for i, e := range phi.Edges {
 			pred := phi.Block().Preds[i]
-			if z.edgeExcluded(phi, i, at) {
+			if z.edgeExcluded(phi, i, at) || staticallyDeadEdge(pred, phi.Block()) {
 				continue
 			}
 			var sub lin
